@@ -149,6 +149,13 @@ func (n *Net) Serve(addr string, s Server) {
 	n.mu.Unlock()
 }
 
+// AnyDown reports whether any address currently has a forced dial outcome (refused, black-holed).
+func (n *Net) AnyDown() bool {
+	n.mu.Lock()
+	defer n.mu.Unlock()
+	return len(n.down) > 0
+}
+
 // SetDown forces the outcome of dials to addr (DialOK clears it).
 func (n *Net) SetDown(addr string, o DialOutcome) {
 	n.mu.Lock()
